@@ -6,8 +6,10 @@
    last committed version (status, commit, order lists, owner, grants, cid unchanged) or
    ceases to exist together with its alias when it had none; for the Cancel message also
    that every shard of the order disappears and no other shard changes; a pending order that
-   times out is cancelled the same way (or nothing changes if the refund fails). *)
-From SaoVerif Require Import Base.Prelude Base.Ints Base.Dec Model.Did Model.Types Model.Monad Model.Bank Model.Select Model.Node Model.Storage Model.Sao Model.Hooks Model.App Model.Spec Proofs.Money.
+   times out is cancelled the same way (or nothing changes if the refund fails).
+   History level (Proofs/MetaSched.v): after a rollback, as in every reachable state, the model is listed for
+   removal exactly where its (restored) lifetime ends (run_meta_scheduled). *)
+From SaoVerif Require Import Base.Prelude Base.Ints Base.Dec Model.Did Model.Types Model.Monad Model.Bank Model.Select Model.Node Model.Storage Model.Sao Model.Hooks Model.App Model.Spec Proofs.Money Proofs.MetaSched.
 From RecordUpdate Require Import RecordUpdate.
 Import RecordSetNotations.
 
@@ -46,3 +48,9 @@ Theorem C05_timeout_pending_cancels_exact : forall cx oid s s' o, handle_timeout
   o_status o = OrderPending -> cancel_order cx oid s = Ok tt s' \/ (cancel_order cx oid s = Err "RefundOrder" s /\ s' = s).
 Proof. first [exact timeout_pending_cancels_exact | apply timeout_pending_cancels_exact]. Qed.
 Print Assumptions C05_timeout_pending_cancels_exact.
+
+(* in every reachable state every data model is listed for removal exactly where its lifetime ends *)
+Theorem C05_run_meta_scheduled : forall tr s,
+  Forall (fun co : Ctx * Op => height_ok co.1) tr -> Inv_msched s -> Inv_msched (run tr s).
+Proof. first [exact run_meta_scheduled | apply run_meta_scheduled]. Qed.
+Print Assumptions C05_run_meta_scheduled.
